@@ -478,6 +478,9 @@ fn plan_base(prop: &str) -> Vec<Item> {
             for pool in [0, 1, 2] {
                 v.push(it("try_paths", &format!("pool={},path=6", pool), Some(if pool == 2 { 1 } else { 2 }), 3));
             }
+            for pool in [0, 1] {
+                v.push(it("try_paths", &format!("pool={},path=7", pool), Some(2), 3));
+            }
             v.push(it("f1_try_sync_idle_nonempty", "pool=1", Some(3), 4));
             v.push(it("f1_try_sync_idle_nonempty", "pool=0", Some(3), 4));
             v.push(it("excl_susp", "pool=1,kind=0", Some(2), 3));
@@ -530,6 +533,10 @@ fn plan_base(prop: &str) -> Vec<Item> {
                 v.push(it("pipe_in_items", &format!("pool=1,n={},pat=1,conc=0,late=1", n), Some(2), 3));
             }
             v.push(it("pipe_in_items", "pool=1,n=2,pat=0,conc=1,late=1", Some(1), 2));
+            // the producer wakes under a lock that the input stream's destructor takes
+            v.push(it("pipe_in_items", "pool=1,n=1,pat=1,conc=0,fin=1,wl=1", Some(2), 3));
+            v.push(it("pipe_in_items", "pool=1,n=1,pat=1,conc=0,fin=0,wl=1", Some(2), 3));
+            v.push(it("pipe_in_items", "pool=2,n=2,pat=1,conc=2,fin=1,wl=1", Some(1), 2));
             v.push(it("pipe_in_items", "pool=2,n=1,pat=1,conc=2,late=1", Some(1), 2));
             v.push(it("pipe_in_items", "pool=2,n=1,pat=9,conc=0,dropmid=1", Some(1), 2));
             v.push(it("pipe_in_items", "pool=1,n=1,pat=1,conc=2,pin=1", Some(2), 3));
